@@ -1,0 +1,12 @@
+//go:build !verif
+// +build !verif
+
+package moss
+
+// Verification hooks (see verif_on.go); no-ops unless built with -tags verif.
+
+func verifTrace(point string, obj interface{}, extra ...interface{}) {}
+
+func verifGate(point string, obj interface{}) {}
+
+func verifOnRemove(path string) {}
